@@ -34,6 +34,8 @@ fn main() {
         "text" => fqv::scen_render::text(&mut sink, seed, thorough),
         "svg" => fqv::scen_render::svg(&mut sink, seed, thorough),
         "frames" => fqv::scen_render::frames(&mut sink, seed, thorough),
+        "histories" => fqv::scen_hist::histories(&mut sink, &arg(&args, "--replay-in", ""), arg(&args, "--grp0", "0").parse().unwrap_or(0)),
+        "threads" => fqv::scen_hist::threads(&mut sink, seed, thorough, 1_000_000),
         "fileio" => fqv::scen_file::fileio(&mut sink, seed, thorough, &arg(&args, "--replay-in", "")),
         "raster" => fqv::scen_render::raster(&mut sink, seed, thorough),
         #[cfg(feature = "hooks")]
